@@ -140,6 +140,11 @@ func check(id, tier string, only int) int {
 	os.RemoveAll(bdir)
 	os.MkdirAll(bdir, 0o755)
 	os.MkdirAll(filepath.Join(verifDir, "evidence"), 0o755)
+	if old, _ := filepath.Glob(filepath.Join(verifDir, "replays", id+"-"+tier+"-*.json")); only < 0 {
+		for _, f := range old {
+			os.Remove(f)
+		}
+	}
 
 	type build struct {
 		name string
@@ -616,7 +621,7 @@ func journalLine(path string, idx int) string {
 	return ""
 }
 
-var frameRe = regexp.MustCompile(`(?m)^(github\.com/dapr/kit/[^\s(]+)`)
+var frameRe = regexp.MustCompile(`(?m)^(github\.com/dapr/kit/[^\n]*)\([^()\n]*\)\s*$`)
 
 // classifyCrash finds a Go panic / fatal error whose trace goes through
 // dapr/kit. Returns kind (panic|fatal), the innermost kit frame of the first
@@ -717,7 +722,7 @@ func scanRaceLogs(bdir string) ([]mon.Violation, int) {
 	return out, blocks
 }
 
-var kitRaceFrame = regexp.MustCompile(`(?m)^\s+(github\.com/dapr/kit/[^\s(]+)\(`)
+var kitRaceFrame = regexp.MustCompile(`(?m)^\s+(github\.com/dapr/kit/[^\n]*)\([^()\n]*\)\s*$`)
 
 func splitRaceSections(blk string) []string {
 	// sections: "Write at ... by goroutine N:" / "Previous read at ... by goroutine M:"; stop at "Goroutine N (running) created at:"
